@@ -38,6 +38,7 @@ func c10Scenarios() []c10Scenario {
 			{name: "multiparty.keyswitch", build: c10MPKeySwitch},
 			{name: "mpbgv.protocols", build: c10MPBGV},
 			{name: "mpckks.protocols", build: c10MPCKKS},
+			{name: "mpbgv.MaskedTransform(other output parameters)", build: c10MPBGVSwitch},
 			{name: "rgsw", build: c10RGSW},
 			{name: "rlwe.RingPackingEvaluator", build: c10RingPacking},
 			{name: "bootstrapping.Evaluator", heavy: true, build: c10Bootstrapping},
@@ -715,6 +716,28 @@ func c10MPCKKS(ctx *core.RunCtx, g *core.Xoshiro) *c10World {
 			}
 			return canonHashCt(params, out), nil
 		}},
+		{"WithParams+transform", true, func(x any) (uint64, error) {
+			// re-target the protocol object to (the same) output parameters and run a single-party transform through the result
+			p := o(x).MaskedLinearTransformationProtocol.WithParams(cp)
+			s := p.AllocateShare(minLevel, L)
+			if err := p.GenShare(cc.sk, cc.sk, logBound, ct, crp, nil, &s); err != nil {
+				return 0, err
+			}
+			out := ct.CopyNew()
+			if err := p.Transform(out, nil, crp, s, out); err != nil {
+				return 0, err
+			}
+			got := make([]complex128, cp.MaxSlots())
+			if err := ckks.NewEncoder(cp).Decode(ckks.NewDecryptor(cp, cc.sk).DecryptNew(out), got); err != nil {
+				return 0, err
+			}
+			for i := range got {
+				if d := got[i] - want[i]; math.Hypot(real(d), imag(d)) > 1e-3 {
+					return 0, fmt.Errorf("INVALID: a transform through the re-targeted object does not preserve the message (slot %d off by %g)", i, math.Hypot(real(d), imag(d)))
+				}
+			}
+			return canonHashCt(params, out), nil
+		}},
 		{"Refresh.single-party", true, func(x any) (uint64, error) {
 			s := o(x).AllocateShare(minLevel, L)
 			if err := o(x).GenShare(cc.sk, logBound, ct, crp, &s); err != nil {
@@ -993,6 +1016,92 @@ func c10RingPacking(ctx *core.RunCtx, g *core.Xoshiro) *c10World {
 		{"RepackNaive", false, func(o any) (uint64, error) {
 			out, err := ev(o).RepackNaive(copies())
 			return errOf(err, func() uint64 { return hct(out) })
+		}},
+	}
+	return w
+}
+
+// --- mpbgv masked transform towards other parameters ------------------------------------------------------------
+
+type c10BGVSwitchCtx struct {
+	out   bgv.Parameters
+	skOut *rlwe.SecretKey
+}
+
+func c10MPBGVSwitch(ctx *core.RunCtx, g *core.Xoshiro) *c10World {
+	sc := c09BGV(ctx, false)
+	cc := c09LastBGV
+	bp := cc.params
+	L := bp.MaxLevel()
+	// output parameters: the same ring and plaintext modulus, a longer or shorter modulus chain
+	extra := ctx.Ch.Draw("output-chain-delta", 3) - 1
+	c := ctx.Cached(fmt.Sprintf("c10/bgvswitch/%x/%d", cc.hash, extra), func(*core.Xoshiro) any {
+		logQ := []int{}
+		for _, q := range bp.Q() {
+			logQ = append(logQ, int(math.Round(math.Log2(float64(q)))))
+		}
+		switch extra {
+		case 1:
+			logQ = append(logQ, 45, 46)
+		case -1:
+			logQ = logQ[:len(logQ)-1]
+		}
+		p, err := bgv.NewParametersFromLiteral(bgv.ParametersLiteral{LogN: bp.LogN(), LogQ: logQ, LogP: []int{50}, PlaintextModulus: bp.PlaintextModulus()})
+		if err != nil {
+			return err
+		}
+		return &c10BGVSwitchCtx{p, rlwe.NewKeyGenerator(p).GenSecretKeyNew()}
+	})
+	sw, ok := c.(*c10BGVSwitchCtx)
+	if !ok {
+		ctx.Harness("output parameters: %v", c)
+	}
+	bpOut := sw.out
+	LOut := bpOut.MaxLevel()
+	ct := sc.fresh(g, L)
+	noise := ring.DiscreteGaussian{Sigma: 8, Bound: 48}
+	crsKey := make([]byte, 32)
+	g.Fill(crsKey)
+	crs, _ := sampling.NewKeyedPRNG(crsKey)
+	mk := func() any {
+		p, err := mpbgv.NewMaskedTransformProtocol(bp, bpOut, noise)
+		if err != nil {
+			ctx.Harness("masked transform: %v", err)
+		}
+		return &p
+	}
+	base := mk().(*mpbgv.MaskedTransformProtocol)
+	crp := base.SampleCRP(LOut, crs)
+	o := func(x any) *mpbgv.MaskedTransformProtocol { return x.(*mpbgv.MaskedTransformProtocol) }
+	want := make([]uint64, bp.MaxSlots())
+	_ = bgv.NewEncoder(bp).Decode(bgv.NewDecryptor(bp, cc.sk).DecryptNew(ct), want)
+	w := &c10World{name: "mpbgv.MaskedTransform(other output parameters)", orig: base}
+	w.copiers = []c10Copier{{"ShallowCopy", true, func(x any) any { c := o(x).ShallowCopy(); return &c }}}
+	w.steps = []c10Step{
+		{"GenShare", true, func(x any) (uint64, error) {
+			s := o(x).AllocateShare(ct.Level(), LOut)
+			if err := o(x).GenShare(cc.sk, sw.skOut, ct, crp, nil, &s); err != nil {
+				return 0, err
+			}
+			return hashPoly(hashPoly(3, s.EncToShareShare.Value), s.ShareToEncShare.Value), nil
+		}},
+		{"single-party transform", false, func(x any) (uint64, error) {
+			s := o(x).AllocateShare(ct.Level(), LOut)
+			if err := o(x).GenShare(cc.sk, sw.skOut, ct, crp, nil, &s); err != nil {
+				return 0, err
+			}
+			out := bgv.NewCiphertext(bpOut, 1, LOut)
+			if err := o(x).Transform(ct.CopyNew(), nil, crp, s, out); err != nil {
+				return 0, err
+			}
+			got := make([]uint64, bpOut.MaxSlots())
+			if err := bgv.NewEncoder(bpOut).Decode(bgv.NewDecryptor(bpOut, sw.skOut).DecryptNew(out), got); err != nil {
+				return 0, err
+			}
+			if hashOperand(got) != hashOperand(want) {
+				return 0, fmt.Errorf("INVALID: the transform through this object does not preserve the message")
+			}
+			return hashOperand(got), nil
 		}},
 	}
 	return w
